@@ -1,7 +1,10 @@
 """Structural IR recipes: Hypothesis strategies + deterministic builder.
 
 Recipe grammar (plain JSON):
-  module  = {"graph": bool, "ops": [op, ...]}                    -> builtin.module (graph region body)
+  module  = {"graph": bool, "dom": bool, "ops": [op, ...]}       -> builtin.module (graph region body)
+            dom: non-entry blocks see the values of every block that strictly dominates them, wherever
+            that block is listed (blocks need not be in dominance order); otherwise only the entry block's
+            chain: every multi-block region is one path through all its blocks in a permuted order
   op      = {"k": int, "r": [type_idx...], "o": [int...], "a": [[name_idx, attr_idx]...],
              "p": [[prop_idx, attr_idx]...], "g": [region...], "h": [hint|None ...]}
   region  = [block, ...]                                          (1..n blocks)
@@ -145,6 +148,14 @@ def _build_region(rec_region, out: Built, plan):
         # MLIR forbids branching to the entry block of a region (xDSL does not verify it, and a
         # label-less entry block cannot be named in text), so successors are non-entry blocks only
         succ = [blocks[1 + s % (len(blocks) - 1)] for s in t.get("s", [])] if len(blocks) > 1 else []
+        if _cache.get("chain") and len(blocks) > 1:
+            # chain mode: the blocks form one path entry -> p(1) -> p(2) ... in an order unrelated to
+            # the listing order (so later-listed blocks may dominate earlier-listed ones)
+            rest = sorted(range(1, len(blocks)),
+                          key=lambda i: ((rec_region[i].get("t") or {}).get("s", [0]) or [0])[0] * 7 % 5 + i * 0.01)
+            path = [0] + rest
+            pos = path.index(blocks.index(b))
+            succ = [blocks[path[pos + 1]]] if pos + 1 < len(path) else []
         top = _mk_op(t, succ, term=True)
         for r, hnt in zip(top.results, t.get("h", [])):
             _set_hint(r, hnt)
@@ -184,7 +195,39 @@ def _build_op(rec, out: Built, plan):
     return op
 
 
-def visible(op, graph_body=None):
+def _strict_dominators(region, b):
+    """Blocks of `region` that strictly dominate reachable block b (plain iterative data-flow on the
+    CFG as built so far; [] if b is unreachable)."""
+    blocks = list(region.blocks)
+    entry = blocks[0]
+    succ = {id(x): [s for s in (x.last_op.successors if x.last_op is not None else ())] for x in blocks}
+    reach, todo = {id(entry)}, [entry]
+    while todo:
+        x = todo.pop()
+        for s_ in succ[id(x)]:
+            if id(s_) not in reach and s_.parent is region:
+                reach.add(id(s_))
+                todo.append(s_)
+    if id(b) not in reach:
+        return []
+    rb = [x for x in blocks if id(x) in reach]
+    preds = {id(x): [p for p in rb if any(s_ is x for s_ in succ[id(p)])] for x in rb}
+    dom = {id(x): ({id(entry)} if x is entry else {id(y) for y in rb}) for x in rb}
+    changed = True
+    while changed:
+        changed = False
+        for x in rb:
+            if x is entry:
+                continue
+            ps = [dom[id(p)] for p in preds[id(x)]]
+            new = ({id(x)} | set.intersection(*ps)) if ps else {id(x)}
+            if new != dom[id(x)]:
+                dom[id(x)] = new
+                changed = True
+    return [x for x in blocks if id(x) in dom[id(b)] and x is not b]
+
+
+def visible(op, graph_body=None, dom_mode=False):
     """Values an operand of `op` may reference (see module docstring)."""
     vis = []
     cur = op
@@ -208,10 +251,17 @@ def visible(op, graph_body=None):
                 vis.extend(o.results)
             r = b.parent
             if r is not None and r.first_block is not b and r.first_block is not None:
-                e = r.first_block
-                vis.extend(e.args)
-                for o in e.ops:
-                    vis.extend(o.results)
+                if dom_mode:
+                    # every block that strictly dominates b (wherever it is listed in the region)
+                    for d in _strict_dominators(r, b):
+                        vis.extend(d.args)
+                        for o in d.ops:
+                            vis.extend(o.results)
+                else:
+                    e = r.first_block
+                    vis.extend(e.args)
+                    for o in e.ops:
+                        vis.extend(o.results)
         r = b.parent
         cur = r.parent if r is not None else None
     return vis
@@ -223,11 +273,13 @@ def build(rec) -> Built:
     out = Built()
     plan: list = []
     _cache["symctr"] = 0
+    _cache["chain"] = bool(rec.get("chain"))
     tops = [_build_op(o, out, plan) for o in rec.get("ops", [])]
     out.module = ModuleOp(tops)
     body = out.module.body.block if rec.get("graph") else None
+    dom_mode = bool(rec.get("dom"))
     for op, refs in plan:
-        vis = visible(op, body)
+        vis = visible(op, body, dom_mode)
         if vis and refs:
             op.operands = [vis[k % len(vis)] for k in refs]
     return out
@@ -277,6 +329,8 @@ def module_recipes(depth: int = 2, hints=HINTS_SIMPLE, max_ops: int = 4, max_blo
                    graph=st.booleans()):
     return st.fixed_dictionaries({
         "graph": graph,
+        "dom": st.booleans(),
+        "chain": st.booleans(),
         "ops": st.lists(op_recipes(depth, hints, max_ops, max_blocks), min_size=1, max_size=max_ops + 1),
     })
 
